@@ -326,7 +326,7 @@ theorem table_path_models_agree (l1raw kib : ℕ) (hfl : CoreFloatOk l1raw kib) 
     (start stop : ℕ) (hstop : stop ≤ umax) :
     pgPrimes (fun a b => generatePrimes (preTabsDecoded ()) l1raw a b kib) start stop =
       generatePrimes (preTabsDecoded ()) l1raw start stop kib :=
-  (prime_generator_table_path_closed l1raw kib hfl hk hk2 start stop hstop).unique
+  (prime_generator_table_path_closed l1raw kib hfl hk hk2 start stop hstop).uniqueC2
     (generatePrimes_primesIn l1raw start stop kib (by unfold umax at hstop; omega) hk hk2
       (hfl start stop (by unfold umax at hstop; omega)))
 
